@@ -193,11 +193,11 @@ fn run(v: usize, input: &str) -> Run {
 }
 
 const CLAUSES: [(&str, &str); 12] = [
-    ("C02 C03 C08 C14 C16 C17 C19 C20", "parse does not panic"),
-    ("C03 C08 C14 C16 C17 C20", "acceptance: success iff the input is a sentence of the toy grammar (independent reference recognizer; skipped tokens do not matter)"),
-    ("C03 C14 C16", "tree leaves are contiguous, in order, start at 0 and end at the input length"),
-    ("C14 C16", "leaf texts equal the input slices of their byte ranges (texts concatenate to the input)"),
-    ("C14 C16", "leaf token types and ranges equal the reference tokenization (significant, skipped, comments, unmatched gaps)"),
+    ("C02 C03 C08 C13 C14 C16 C17 C19 C20", "parse does not panic"),
+    ("C03 C08 C13 C14 C16 C17 C20", "acceptance: success iff the input is a sentence of the toy grammar (independent reference recognizer; skipped tokens do not matter)"),
+    ("C03 C13 C14 C16", "tree leaves are contiguous, in order, start at 0 and end at the input length"),
+    ("C13 C14 C16", "leaf texts equal the input slices of their byte ranges (texts concatenate to the input)"),
+    ("C13 C14 C16", "leaf token types and ranges equal the reference tokenization (significant, skipped, comments, unmatched gaps)"),
     ("C14", "line/column positions of scanner-produced leaves match the text"),
     ("C14", "line/column positions of unmatched-gap leaves match the text"),
     ("C08 C17 C20", "semantic actions see exactly the significant tokens, in order (skipped and state-skipped tokens never influence the derivation)"),
